@@ -103,6 +103,22 @@ func (h *history) judge(p *plan) map[key]*childVerdict {
 				cv.definite = append(cv.definite, kind)
 			}
 		}
+		// foreign-then-own shape: if the fault plan dropped the own-changeset version, what remains is a
+		// foreign-changeset version after the parent version's timestamp in its own second: no unique answer
+		for _, f := range h.fwd {
+			if f.kid != k {
+				continue
+			}
+			own := false
+			for _, v := range cv.sv {
+				if v.upload == h.parents[f.parent].upload {
+					own = true
+				}
+			}
+			if !own {
+				cv.maybe = true
+			}
+		}
 		for i, pv := range h.parents {
 			if !pv.visible {
 				continue
@@ -296,6 +312,18 @@ func applyAt(res *execRes, i int, t time.Time) ([]pslot, error) {
 	return relsToPvers(osm.Relations{&c})[0].slots, nil
 }
 
+// prevVersion is the version number preceding v in vs, 0 if none.
+func prevVersion(vs []*ver, v *ver) int {
+	p := 0
+	for _, x := range vs {
+		if x == v {
+			return p
+		}
+		p = x.version
+	}
+	return 0
+}
+
 func slotMatches(s pslot, v *ver) string {
 	switch {
 	case s.version != v.version:
@@ -481,6 +509,16 @@ func c11History(t *testing.T, r *kit.Run, hi int, h *history, p *plan, ao annOpt
 		judgedAt := func(i int, k key) bool {
 			return verdicts[k].clean() && pass(i, k)
 		}
+		// foreign-then-own shape: only the annotated child is judged for that (parent version, child);
+		// what becomes of the skipped foreign version in the update list is not fixed by the statement
+		isFwd := func(i int, k key) bool {
+			for _, f := range h.fwd {
+				if f.parent == i && f.kid == k {
+					return true
+				}
+			}
+			return false
+		}
 		for i, pv := range h.parents {
 			got := &res.parents[i]
 			if !pv.visible {
@@ -509,6 +547,14 @@ func c11History(t *testing.T, r *kit.Run, hi int, h *history, p *plan, ao annOpt
 						continue
 					}
 				}
+				if isFwd(i, m.k) {
+					o.Probe("foreign-then-own-changeset-version-after-the-parent")
+					if w := slotMatches(got.slots[j], cur); w != "" {
+						violate("C11/forward-grouping/own-changeset-version-not-annotated", "parent v%d (changeset %d, timestamp %s) child %d = %s: within the threshold after the parent version first v%d of a foreign changeset, then v%d of the parent's own changeset %d were written; the own-changeset version is the parent's child, annotated is v%d changeset %d",
+							pv.version, pv.cs, pv.ts.Format("15:04:05"), j, m.k, prevVersion(verdicts[m.k].sv, cur), cur.version, cur.cs, got.slots[j].version, got.slots[j].cs)
+					}
+					continue
+				}
 				if w := slotMatches(got.slots[j], cur); w != "" {
 					violate("C11/current-child/"+w, "parent v%d (committed +%v) child %d = %s: annotated v%d changeset %d (%g,%g); current at that time was v%d changeset %d (%g,%g)",
 						pv.version, pv.commit.Sub(h.uploads[0]), j, m.k, got.slots[j].version, got.slots[j].cs, got.slots[j].lat, got.slots[j].lon, cur.version, cur.cs, cur.lat, cur.lon)
@@ -527,7 +573,7 @@ func c11History(t *testing.T, r *kit.Run, hi int, h *history, p *plan, ao annOpt
 				nontrivial = true
 			}
 			for j, m := range pv.mems {
-				if !judgedAt(i, m.k) {
+				if !judgedAt(i, m.k) || isFwd(i, m.k) {
 					continue
 				}
 				sv := verdicts[m.k].sv
@@ -639,7 +685,7 @@ func c11History(t *testing.T, r *kit.Run, hi int, h *history, p *plan, ao annOpt
 					continue
 				}
 				for j, m := range pv.mems {
-					if !judgedAt(i, m.k) {
+					if !judgedAt(i, m.k) || isFwd(i, m.k) {
 						continue
 					}
 					want := currentAt(verdicts[m.k].sv, tq)
